@@ -98,8 +98,12 @@ def build(case: Dict[str, Any]):
         return m, (lambda r, n: (torch.as_tensor(r.rand(n, 3, 12, 12).astype(np.float32)),)), ("tensor", (nout,))
     if kind == "MultiInput":
         sp = _obs_space(case.get("obs", "dict"), case.get("img_hw", [12, 12]))
+        extra = {}
+        if int(case["seed"]) % 3 == 0:
+            # a user configuration of the image extractor, with a name of its own (parameter names embed it): rebuilds must reproduce it
+            extra["cnn_config"] = {"channel_size": [8, 8], "kernel_size": [3, 3], "stride_size": [1, 1], "output_activation": "ReLU", "name": "vision"}
         m = EvolvableMultiInput(observation_space=sp, num_outputs=nout, latent_dim=16, vector_space_mlp=case.get("vector_space_mlp", False),
-                                min_latent_dim=8, max_latent_dim=40 if tight else 128)
+                                min_latent_dim=8, max_latent_dim=40 if tight else 128, **extra)
         return m, (lambda r, n: (_sample_input(sp, r, n),)), ("tensor", (nout,))
     # ---- networks ----
     obs = case["obs"]
